@@ -72,8 +72,9 @@ void bn_make(bn_t a, size_t digits) {
 	}
 
 	if (a->dp == NULL) {
-		free((void *)a);
+		/* The caller still holds a and releases it with bn_free(). */
 		RLC_THROW(ERR_NO_MEMORY);
+		return;
 	}
 #else
 	/* Verify if the number of digits is sane. */
